@@ -361,14 +361,15 @@ def _explored(case, out, what):
     if key not in cache:
         if what == "dist":
             ex = LW.explore_records(out, max_paths=600)
-            cache[key] = (ex.distribution(), ex.total(), ex.over_budget)
+            # (total includes the mass of alternatives too light to be explored, which is bounded and reported)
+            cache[key] = (ex.distribution(), ex.total() + ex.cut_mass, ex.over_budget, ex.cut_mass)
         else:
             extra = sorted(set(out.all_qubits()) - set(case["qubits"]))
             if extra:
-                cache[key] = (None, False)
+                cache[key] = (None, False, 0.0)
             else:
                 rho, ex = LW.explore_average_state(out, case["qubits"], case["psi0"], max_paths=600, dm=(what == "rho-dm"))
-                cache[key] = (rho, ex.over_budget)
+                cache[key] = (rho, ex.over_budget, ex.cut_mass)
     return cache[key]
 
 
@@ -395,7 +396,7 @@ def _sorted_instances(dist):
 def judge_distribution(ctx, case, name, out, wit, mech=None, want=None):
     want = case["dist"] if want is None else want
     try:
-        got, total, over = _explored(case, out, "dist")
+        got, total, over, cut = _explored(case, out, "dist")
     except ValueError as e:
         if "Circuit has no measurements to sample" in str(e) and want:
             ctx.check(False, "distribution-preserved", mech or "C06:distribution-changed:" + name,
@@ -410,12 +411,15 @@ def judge_distribution(ctx, case, name, out, wit, mech=None, want=None):
         ctx.event("explorer-over-budget")
         return None
     tv = L.tv_distance(got, want)
-    if tv > 1e-6 and mech is None and L.tv_distance(_sorted_instances(got), _sorted_instances(want)) <= 1e-6:
+    if tv > 1e-6 + cut and mech is None and L.tv_distance(_sorted_instances(got), _sorted_instances(want)) <= 1e-6:
         # explained-by: only the order of the instances recorded under a repeated key differs
         mech = K_KEY_ORDER + name
-    elif tv > 1e-6 and mech is None and name == "defer_measurements" and _defer_condition_facts()[1] and _defer_bitmask_explains(case, got):
+    elif tv > 1e-6 + cut and mech is None and name == "defer_measurements" and _defer_condition_facts()[1] and _defer_bitmask_explains(case, got):
         mech = K_DEFER_BITMASK  # (repaired in the repository: reported as a violation if it ever returns)
-    return ctx.check(tv <= 1e-6 and abs(total - 1) < 1e-6, "distribution-preserved", mech or "C06:distribution-changed:" + name,
+    if cut > 1e-5:
+        ctx.event("explorer-unexplored-mass>1e-5")
+        return None
+    return ctx.check(tv <= 1e-6 + cut and abs(total - 1) < 1e-6, "distribution-preserved", mech or "C06:distribution-changed:" + name,
                      lambda: "exact record distribution of the output differs from the input program's by TV %.3g" % tv,
                      got={str(k): v for k, v in sorted(got.items(), key=lambda kv: -kv[1])[:8]},
                      want={str(k): v for k, v in sorted(want.items(), key=lambda kv: -kv[1])[:8]}, output=repr(out)[:3000], **wit)
@@ -424,7 +428,7 @@ def judge_distribution(ctx, case, name, out, wit, mech=None, want=None):
 def judge_state(ctx, case, name, out, wit, mech=None, want=None, dm=False):
     want = case["rho"] if want is None else want
     try:
-        rho, over = _explored(case, out, "rho-dm" if dm else "rho")
+        rho, over, cut = _explored(case, out, "rho-dm" if dm else "rho")
     except ValueError as e:
         if "already logged to key" in str(e):
             # the simulators refuse the produced circuit: a key carries both/two channel-style and measurement-style records
@@ -443,7 +447,10 @@ def judge_state(ctx, case, name, out, wit, mech=None, want=None, dm=False):
                   output=repr(out)[:3000], **wit)
         return False
     d = L.maxdiff(rho, want)
-    return ctx.check(d <= TOL, "average-state-preserved", mech or "C06:average-state-changed:" + name,
+    if cut > 1e-5:
+        ctx.event("explorer-unexplored-mass>1e-5")
+        return None
+    return ctx.check(d <= TOL + cut, "average-state-preserved", mech or "C06:average-state-changed:" + name,
                      lambda: "outcome-averaged final state of the output differs from the input program's by %.3g" % d,
                      deviation=d, output=repr(out)[:3000], **wit)
 
@@ -1191,9 +1198,10 @@ def _satisfies(case, out):
     try:
         if case["kind"] == "unitary":
             return L.phase_diff(LW.lower_unitary_embed(out, case["qubits"]), case["U"]) <= TOL
-        got, total, over = _explored(case, out, "dist")
-        rho, over2 = _explored(case, out, "rho")
-        return (not over and not over2 and L.tv_distance(got, case["dist"]) <= 1e-6 and rho is not None and L.maxdiff(rho, case["rho"]) <= TOL)
+        got, total, over, cut = _explored(case, out, "dist")
+        rho, over2, cut2 = _explored(case, out, "rho")
+        return (not over and not over2 and L.tv_distance(got, case["dist"]) <= 1e-6 + cut and rho is not None
+                and L.maxdiff(rho, case["rho"]) <= TOL + cut2)
     except (LW.LowerError, ValueError):
         return False
 
@@ -1540,13 +1548,13 @@ def cirq_has_unitary(op):
 
 def _satisfies_rel(case, out, rel):
     try:
-        got, total, over = _explored(case, out, "dist")
-        if over or L.tv_distance(got, case["dist"]) > 1e-6:
+        got, total, over, cut = _explored(case, out, "dist")
+        if over or L.tv_distance(got, case["dist"]) > 1e-6 + cut:
             return False
         if rel == "D":
             return True
-        rho, over2 = _explored(case, out, "rho")
-        return not over2 and rho is not None and L.maxdiff(rho, case["rho"]) <= TOL
+        rho, over2, cut2 = _explored(case, out, "rho")
+        return not over2 and rho is not None and L.maxdiff(rho, case["rho"]) <= TOL + cut2
     except ValueError:
         return False
 
